@@ -59,6 +59,8 @@ ABrTable ==
          /\ Add(<<Cond, [o |-> "br_table", ds |-> IF two THEN <<a, a>> ELSE <<a>>, d |-> b]>>, stk, TRUE, 0, 1)
 ARet   == ~dead /\ Room(1) /\ Add(<<[o |-> "return"]>>, stk, TRUE, 0, 0)
 AUnr   == ~dead /\ Room(1) /\ Add(<<[o |-> "unreachable"]>>, stk, TRUE, 0, 0)
+AThrow == ~dead /\ Room(1) /\ Add(<<[o |-> "throw"]>>, stk, TRUE, 0, 0)
+ARCall == ~dead /\ Room(1) /\ Add(<<[o |-> "rcall", k |-> 3]>>, stk, TRUE, 0, 0)
 
 AFinish ==       \* the function's final end
     /\ ~done /\ Depth = 0 /\ Len(body) + 1 <= MaxLen
@@ -133,7 +135,7 @@ APlan2 ==
          /\ plan' = Append(plan, e)
     /\ UNCHANGED <<body, stk, dead, nop, ncond, done>>
 
-Next == AOp \/ ABlock \/ ATry \/ ALoop \/ AIf \/ AElse \/ AEnd \/ ABr \/ ABrIf \/ ABrTable \/ ARet \/ AUnr
+Next == AOp \/ ABlock \/ ATry \/ ALoop \/ AIf \/ AElse \/ AEnd \/ ABr \/ ABrIf \/ ABrTable \/ ARet \/ AUnr \/ AThrow \/ ARCall
         \/ AFinish \/ APlan1 \/ APlan2
 Spec == Init /\ [][Next]_vars
 
